@@ -64,10 +64,12 @@ type Step struct {
 	Delay  time.Duration `json:"delay,omitempty"`
 
 	// listen
-	Feed      []Emit          `json:"feed,omitempty"`  // datagrams sent to the listen address; After is relative to the bind
-	Holds     []time.Duration `json:"holds,omitempty"` // simulated time the harness spends in the k-th callback
-	StopAfter time.Duration   `json:"stopafter,omitempty"`
-	Target    [2]int          `json:"target,omitempty"` // stop: (task, step) of the listen step
+	Feed       []Emit          `json:"feed,omitempty"`  // datagrams sent to the listen address; After is relative to the bind
+	Holds      []time.Duration `json:"holds,omitempty"` // simulated time the harness spends in the k-th callback
+	StopAfter  time.Duration   `json:"stopafter,omitempty"`
+	Target     [2]int          `json:"target,omitempty"`     // stop: (task, step) of the listen step
+	OnErrFalse bool            `json:"onerrfalse,omitempty"` // listen: the application's OnError returns false
+	SameQ      bool            `json:"sameq,omitempty"`      // listen: the application passes the signal channel of its previous Listen call again
 
 	// call options
 	Scribble  bool `json:"scribble,omitempty"`  // overwrite the network buffers after the call and re-observe the result
